@@ -3,6 +3,7 @@
 package route
 
 import (
+	"context"
 	"encoding/json"
 	"errors"
 	"io"
@@ -10,6 +11,7 @@ import (
 	"net/url"
 
 	"github.com/gorilla/mux"
+	huskyotlp "github.com/honeycombio/husky/otlp"
 	"github.com/tinylib/msgp/msgp"
 
 	"github.com/honeycombio/refinery/collect"
@@ -219,5 +221,43 @@ func Harness_C23_batch() {
 			}
 		}
 		zz.Assert(processed == want, "every well-formed, admitted event was processed (none silently discarded)")
+	}
+}
+
+// C23 (OTLP processing step): processOTLPRequest on 1..2 translated events: if the environment
+// lookup fails nothing is processed and the caller is told (so it cannot answer success);
+// otherwise every event is processed exactly once.
+func Harness_C23_otlp() {
+	zz.MustCover("(*github.com/honeycombio/refinery/route.Router).processOTLPRequest")
+	cfg := &config.MockConfig{GetHoneycombAPIVal: "https://api.honeycomb.io", TraceIdFieldNames: []string{"trace.trace_id"}, ParentIdFieldNames: []string{"trace.parent_id"}}
+	coll := &verifAdmitCollector{}
+	up, peer := &verifRecTx{}, &verifRecTx{}
+	r := &Router{Config: cfg, Logger: &logger.NullLogger{}, UpstreamTransmission: up, PeerTransmission: peer, Sharder: &verifSharder{self: verifSelf, owner: verifSelf},
+		Collector: coll, Metrics: &metrics.NullMetrics{}, routerType: types.RouterTypeIncoming}
+	r.iopLogger = iopLogger{Logger: r.Logger, incomingOrPeer: "incoming"}
+	lookupFails := zz.NondetBool("lookupFails")
+	r.environmentCache = newEnvironmentCache(1e9, func(string) (authData, error) {
+		if lookupFails {
+			return authData{}, errors.New("auth endpoint unavailable")
+		}
+		return authData{environment: "env"}, nil
+	})
+	classic := zz.NondetBool("classicKey")
+	apiKey := verifEnvKey
+	if classic {
+		apiKey = verifClassic
+	}
+	n := 1 + zz.Choose("events", 2)
+	var evs []huskyotlp.Event
+	for i := 0; i < n; i++ {
+		evs = append(evs, huskyotlp.Event{Attributes: map[string]interface{}{"trace.trace_id": "T1", "f": int64(1)}, SampleRate: 1})
+	}
+	err := r.processOTLPRequest(context.Background(), []huskyotlp.Batch{{Dataset: "ds", Events: evs}}, apiKey, "ua")
+	if lookupFails && !classic {
+		zz.Assert(err != nil, "a failed environment lookup is reported to the caller (no success response)")
+		zz.Assert(coll.calls == 0, "and nothing is processed")
+	} else {
+		zz.Assert(err == nil, "processed")
+		zz.Assert(len(coll.spans) == n, "every event processed exactly once")
 	}
 }
